@@ -24,6 +24,8 @@ def families():
         fam('one2w', ['u1'], [1, 2], [1, 2], 2),
         fam('late1w', ['u1'], [1, 2], [1, 1], 2, late=[2]),
         fam('late2w', ['u1'], [1, 2], [1, 2], 2, late=[1]),
+        # the files of one week are not neighbours in directory order: a file of the other week sorts between them
+        fam('inter2w', ['u1'], [1, 2, 3], [1, 2, 1], 1),
     ]
     big = [
         fam('two2w', ['u1', 'u2'], [1, 2, 3], [1, 1, 2], 1),
